@@ -128,7 +128,7 @@ def check_class(fx, R, cq):
             if v_ is not None:
                 env[s_[1]] = v_
     inits = {i.get('field'): deep_unwrap(sx(i['e'])) for i in g['inits'] if i.get('field')}
-    R.check(inits.get('cellResolution_') == 'cellResolution', 'X1', cname + ':resolution', 'cellResolution_ initialised with %s' % (inits.get('cellResolution_'),), 'stores the resolution', loc, 'E-STATE')
+    R.form(inits.get('cellResolution_') == 'cellResolution', 'X1', cname + ':resolution', 'cellResolution_ initialised with %s' % (inits.get('cellResolution_'),), 'stores the resolution', loc, 'E-STATE')
     origin_s = next((s[1][2] for s in st if s[0] == 'expr' and isinstance(s[1], tuple) and s[1][:2] == ('=', 'this.flooredMinimalPositionAlongAxes_')), None)
     count_s = next((s[1][2] for s in st if s[0] == 'expr' and isinstance(s[1], tuple) and s[1][:2] == ('=', 'this.numberOfCellsAlongAxes_')), None)
     origin = tosym(origin_s, env) if origin_s is not None else None
@@ -240,8 +240,8 @@ def check_class(fx, R, cq):
         R.undecided('X1', cname + '::computeCellIndexes', 'index map idiom not recognised: %s' % (idx,))
     cst = stmts_sx(fc)
     okc = ('expr', ('=', ('()', 'point', 'dim'), ('[]', ('[]', 'this.cellCentersPositionAlongAxes_', 'dim'), ('()', 'cellIndexes', 'dim')))) in cst and ('return', 'point') in cst
-    R.check(okc, 'X1', cname + '::computeCellCenterPosition', 'does not read table[dim][indexes(dim)] for every axis: %s' % (cst,), 'reads the centre table per axis', fx.rel(fc['loc']), 'E-SIB')
-    R.check(stmts_sx(ft) == [('return', ('[]', 'this.cellCentersPositionAlongAxes_', 'axisDIM'))], 'X1', cname + '::getCellCentersPositionAlong', 'returns %s' % (stmts_sx(ft),), 'exposes the same table',
+    R.form(okc, 'X1', cname + '::computeCellCenterPosition', 'does not read table[dim][indexes(dim)] for every axis: %s' % (cst,), 'reads the centre table per axis', fx.rel(fc['loc']), 'E-SIB')
+    R.form(stmts_sx(ft) == [('return', ('[]', 'this.cellCentersPositionAlongAxes_', 'axisDIM'))], 'X1', cname + '::getCellCentersPositionAlong', 'returns %s' % (stmts_sx(ft),), 'exposes the same table',
             fx.rel(ft['loc']), 'E-SIB')
     # ---- X3 margins ---------------------------------------------------------------------------------
     eps_, dl = sp.symbols('eps delta', real=True)
